@@ -319,7 +319,11 @@ fn read_server_addresses(src: &mut impl io::Read) -> Result<[Option<SocketAddr>;
                 let addr = SocketAddr::new(IpAddr::V6(Ipv6Addr::from(ip)), port);
                 *server_address = Some(addr);
             }
-            NETCODE_ADDRESS_NONE => {} // skip
+            NETCODE_ADDRESS_NONE => {
+                // An announced address must be present: an empty entry would leave a hole in the list
+                // that is not written back, so the token would not round-trip
+                return Err(io::Error::new(io::ErrorKind::InvalidData, "Empty ip address entry"));
+            }
             _ => return Err(io::Error::new(io::ErrorKind::InvalidData, "Unknown ip address type")),
         }
     }
